@@ -84,6 +84,10 @@ pub struct Case {
     /// deserialize through Deserializer::from_reader over 3-byte pieces instead of from_str
     #[serde(default)]
     pub via_reader: bool,
+    /// earlier settings of the limit on the same deserializer (0 = "no limit"), made before the
+    /// setting under test: only the last setting counts
+    #[serde(default)]
+    pub presets: Vec<u16>,
 }
 
 pub fn info() -> PropInfo {
@@ -265,10 +269,13 @@ fn build(c: &Case) -> Option<Built> {
 }
 
 #[cfg(feature = "full")]
-fn de_with_limit(v: &OvVal, xml: &str, limit: Option<usize>, via_reader: bool) -> Result<OvVal, quick_xml::DeError> {
+fn de_with_limit(v: &OvVal, xml: &str, limit: Option<usize>, via_reader: bool, presets: &[u16]) -> Result<OvVal, quick_xml::DeError> {
     if via_reader {
         let src = crate::sources::ChunkedBufRead::new(xml.as_bytes(), crate::sources::cuts_fixed(3, xml.len()));
         let mut de = quick_xml::de::Deserializer::from_reader(src);
+        for p in presets {
+            de.event_buffer_size(std::num::NonZeroUsize::new(*p as usize));
+        }
         de.event_buffer_size(limit.and_then(std::num::NonZeroUsize::new));
         return match v {
             OvVal::Ov(_) => Ov::deserialize(&mut de).map(OvVal::Ov),
@@ -277,6 +284,9 @@ fn de_with_limit(v: &OvVal, xml: &str, limit: Option<usize>, via_reader: bool) -
         };
     }
     let mut de = quick_xml::de::Deserializer::from_str(xml);
+    for p in presets {
+        de.event_buffer_size(std::num::NonZeroUsize::new(*p as usize));
+    }
     de.event_buffer_size(limit.and_then(std::num::NonZeroUsize::new));
     match v {
         OvVal::Ov(_) => Ov::deserialize(&mut de).map(OvVal::Ov),
@@ -286,7 +296,7 @@ fn de_with_limit(v: &OvVal, xml: &str, limit: Option<usize>, via_reader: bool) -
 }
 
 #[cfg(not(feature = "full"))]
-fn de_with_limit(_v: &OvVal, _xml: &str, _limit: Option<usize>, _via_reader: bool) -> Result<OvVal, quick_xml::DeError> {
+fn de_with_limit(_v: &OvVal, _xml: &str, _limit: Option<usize>, _via_reader: bool, _presets: &[u16]) -> Result<OvVal, quick_xml::DeError> {
     Err(quick_xml::DeError::Custom("overlapped-lists is not enabled in this build".into()))
 }
 
@@ -302,7 +312,7 @@ pub fn check(c: &Case) -> Verdict {
         Some(b) => b,
         None => return Verdict::excluded("not-splittable"),
     };
-    match de_with_limit(&c.value, &b.doc, None, c.via_reader) {
+    match de_with_limit(&c.value, &b.doc, None, c.via_reader, &c.presets) {
         Ok(v) if v == c.value => {}
         Ok(v) => return Verdict::fail(format!("interleaved document {:?} deserializes to {:?}, expected {:?}", b.doc, v, c.value)),
         Err(e) => return Verdict::fail(format!("interleaved document {:?} fails without a limit: {}", b.doc, e)),
@@ -313,7 +323,7 @@ pub fn check(c: &Case) -> Verdict {
     sorted.dedup();
     let mut succeeded_at: Option<usize> = None;
     for k in sorted {
-        match de_with_limit(&c.value, &b.doc, Some(k), c.via_reader) {
+        match de_with_limit(&c.value, &b.doc, Some(k), c.via_reader, &c.presets) {
             Ok(v) => {
                 if v != c.value {
                     return Verdict::fail(format!("limit {}: document {:?} deserializes to {:?}, expected {:?}", k, b.doc, v, c.value));
@@ -340,6 +350,12 @@ pub fn check(c: &Case) -> Verdict {
     }
     if b.contiguous {
         v.classes.push("contiguous");
+    }
+    if b.need >= 65 {
+        v.classes.push(">=65-events-held");
+    }
+    if !c.presets.is_empty() {
+        v.classes.push("limit-set-several-times");
     }
     if matches!(c.value, OvVal::Ov3(_)) {
         v.classes.push("fixed-size-sequences-among-the-lists");
@@ -419,12 +435,21 @@ fn run(ctx: &Ctx) {
             }
             .unwrap();
             let (_, units, _) = split_children(&doc).unwrap();
-            all_orders(&units).into_iter().enumerate().map(|(k, order)| Case { value: v.clone(), order, nested_order: vec![(k as u16).wrapping_mul(9973), (k as u16).wrapping_mul(31), 40000, 123], limits: vec![], via_reader: k % 3 == 2 }).collect()
+            all_orders(&units).into_iter().enumerate().map(|(k, order)| Case { value: v.clone(), order, nested_order: vec![(k as u16).wrapping_mul(9973), (k as u16).wrapping_mul(31), 40000, 123], limits: vec![], via_reader: k % 3 == 2, presets: match k % 5 { 1 => vec![1], 3 => vec![2, 0], _ => vec![] } }).collect()
         },
         check,
     );
-    let strat = || Box::new((value_strategy(4), prop::collection::vec(any::<u16>(), 0..16), prop::collection::vec(any::<u16>(), 0..12), prop::collection::vec(any::<u16>(), 0..6), any::<bool>()).prop_map(|(value, order, nested_order, limits, via_reader)| Case { value, order, nested_order, limits, via_reader }));
+    let presets = || prop_oneof![3 => Just(vec![]), 1 => prop::collection::vec(prop_oneof![Just(0u16), 1u16..6], 1..3)];
+    let strat = move || Box::new((value_strategy(4), prop::collection::vec(any::<u16>(), 0..16), prop::collection::vec(any::<u16>(), 0..12), prop::collection::vec(any::<u16>(), 0..6), any::<bool>(), presets()).prop_map(|(value, order, nested_order, limits, via_reader, presets)| Case { value, order, nested_order, limits, via_reader, presets }));
     ctx.run_proptest_with("random-interleavings", ctx.tier.pick(600_000, 5_000_000), strat, check);
+    // long lists: dozens to hundreds of skipped events are held while a later item of another list is read
+    let long = move || {
+        Box::new(
+            (any::<u8>(), prop::collection::vec(item(), 1..4), prop::collection::vec(elem_string(), 20..90), prop::collection::vec(any::<u8>(), 0..40), elem_string(), prop::collection::vec(any::<u16>(), 0..200), prop::collection::vec(any::<u16>(), 0..12), prop::collection::vec(any::<u16>(), 0..4), any::<bool>())
+                .prop_map(|(n, a, b, c, s, order, nested_order, limits, via_reader)| Case { value: OvVal::Ov(Ov { n, a, b, c, s }), order, nested_order, limits: if limits.is_empty() { vec![65535] } else { limits }, via_reader, presets: vec![] }),
+        )
+    };
+    ctx.run_proptest_with("long-lists-random-interleavings", ctx.tier.pick(40_000, 400_000), long, check);
 }
 
 fn replay(_stage: &str, case: &Value) -> Result<Verdict, String> {
